@@ -153,7 +153,7 @@ theorem len64_spurious (v : W) (j : Nat) (h1 : 1 ≤ j) (h63 : j ≤ 63) (hb : (
     rwa [List.length_cons, List.length_replicate] at this]
   simp only [noErrScan]
   have hz : ∀ x : W, x &&& (0 : W) = 0#64 := fun x => BitVec.and_zero
-  rw [hz, BitVec.getLsbD_zero]
+  rw [patA64_smat_c, hz, BitVec.getLsbD_zero]
   simp only [Bool.false_eq_true, if_false]
   have h := (mem_noErrScan_run patA64.patlen v (smat patA64.codes) 0 patA64_smat_a 63 0 (0 + 1)
     ((((0 + 1 + (j - 1) : Nat) : Int) - patA64.patlen + 1, 0))).2
@@ -189,5 +189,89 @@ theorem len64_spec :
     by_cases hi : i = 0
     · subst hi; left; decide
     · right; rw [patA64_patlen]; omega
+
+/-- the right-hand side of `manberNoErr_exact` (what an exact automaton reports) -/
+def NoErrSpec (P : Pattern) (data : List Nat) (begin length : Nat) (i : Int) (k : Nat) : Prop :=
+  ∃ i' : Nat, i = (i' : Int) ∧ begin ≤ i' ∧ i' + P.patlen ≤ min (begin + length) data.length ∧
+    hamCost P.codes (data.drop i') = some 0 ∧ k = 0
+
+/-- **the statement of `manberNoErr_exact` is false for the 64-position pattern `A^64`, whatever the value `v` of the shift** -/
+theorem len64_not_exact (v : W) :
+    ¬ (∀ data ∈ [textA64, textCA63], ∀ (i : Int) (k : Nat),
+        (i, k) ∈ manberNoErrWith v patA64 data 0 64 ↔ NoErrSpec patA64 data 0 64 i k) := by
+  intro H
+  rcases noErr_len64_inexact v with h | h
+  · apply h
+    refine (H textA64 (by simp) 0 0).2 ⟨0, rfl, Nat.le_refl _, ?_, len64_spec.1, rfl⟩
+    rw [patA64_patlen]; decide
+  · obtain ⟨⟨i, k⟩, hx⟩ := List.exists_mem_of_ne_nil _ h
+    obtain ⟨i', _, _, h3, h4, _⟩ := (H textCA63 (by simp) i k).1 hx
+    rw [patA64_patlen] at h3
+    have hl : textCA63.length = 64 := by decide
+    rw [hl] at h3
+    have : i' = 0 := by omega
+    subst this
+    rcases len64_spec.2 0 with h5 | h5
+    · exact h5 h4
+    · rw [patA64_patlen] at h5; omega
+
+/-- in particular for the model as it is (`1#64 <<< 64 = 0` in Lean): the bound `patlen ≤ 63` of `manberNoErr_exact` cannot be
+replaced by `patlen ≤ 64` = `MAX_PAT_LEN` -/
+theorem manberNoErr_exact_fails_at_64 :
+    ¬ (∀ (P : Pattern) (data : List Nat) (begin length : Nat), 1 ≤ P.patlen → P.patlen ≤ 64 → (∀ c ∈ data, c < 26) →
+        ∀ (i : Int) (k : Nat), (i, k) ∈ manberNoErr P data begin length ↔ NoErrSpec P data begin length i k) := by
+  intro H
+  apply len64_not_exact (1#64 <<< patA64.patlen)
+  intro data hd i k
+  rw [← manberNoErr_eq_with]
+  refine H patA64 data 0 64 (by rw [patA64_patlen]; omega) (by rw [patA64_patlen]; omega) ?_ i k
+  simp only [List.mem_cons, List.not_mem_nil, or_false] at hd
+  rcases hd with rfl | rfl <;> decide
+
+/-! ## the D33 witness: `ACGT`x16 (64 positions), one error, on `acgt`x20 -/
+
+/-- `ManberIndel` with the value of `0x1L << ppat->patlen` as a parameter -/
+def manberIndelWith (v : W) (P : Pattern) (data : List Nat) (begin length : Nat) : List RawHit :=
+  let cmask : W := ~~~ (omaskWord P.codes)
+  errScan P.patlen (fun sindx => indelLevels v cmask sindx 0 0) (smat P.codes) begin
+    (indelInit v (P.maxerr + 1) v) (window data begin length)
+
+theorem manberIndel_eq_with (P : Pattern) (data : List Nat) (begin length : Nat) :
+    manberIndel P data begin length = manberIndelWith (1#64 <<< P.patlen) P data begin length := rfl
+
+def strACGT16 : Bytes := (List.replicate 16 [65, 67, 71, 84]).flatten
+/-- `ACGT`x16 as compiled, budget 1 -/
+def patACGT16 (indel : Bool) : Pattern := letterPattern strACGT16 1 indel
+/-- `acgt`x20, encoded -/
+def textACGT20 : List Nat := (List.replicate 20 [0, 2, 6, 19]).flatten
+
+theorem patACGT16_compiles (b : Bool) : compile strACGT16 1 b = .ok (patACGT16 b) :=
+  compile_letters _ (by decide) (by decide) 1 b
+
+theorem patACGT16_patlen (b : Bool) : (patACGT16 b).patlen = 64 := by
+  unfold patACGT16; rw [letterPattern_patlen]; decide
+
+set_option maxRecDepth 1000000 in
+/-- the 64-position pattern occurs exactly at positions 0, 4, 8, 12, 16 of the text … -/
+theorem acgt16_spec : [0, 4, 8, 12, 16].map (fun i => hamCost (patACGT16 false).codes (textACGT20.drop i)) =
+    [some 0, some 0, some 0, some 0, some 0] := by decide
+
+set_option maxRecDepth 1000000 in
+/-- … and the mismatch automaton reports nothing, with Lean's value of the shift (0: the model as it is) and with the value
+gcc/x86-64 gives (`shl` masks the count: 1) — the behaviour observed on the real code (finding D33) -/
+theorem acgt16_sub_reports_nothing :
+    manberSub (patACGT16 false) textACGT20 0 144 = [] ∧
+    manberSubWith 0 (patACGT16 false) textACGT20 0 144 = [] ∧
+    manberSubWith 1 (patACGT16 false) textACGT20 0 144 = [] := by
+  refine ⟨?_, ?_, ?_⟩ <;> decide
+
+set_option maxRecDepth 1000000 in
+/-- the indel automaton: nothing with the value 0; with the value 1 (gcc/x86-64) EVERY end position of the text is reported
+with one error — 80 hits, starts -63 .. 16, the five exact occurrences included with the wrong count 1 (what the real code
+answers: finding D33) -/
+theorem acgt16_indel_reports_garbage :
+    manberIndelWith 0 (patACGT16 true) textACGT20 0 144 = [] ∧
+    manberIndelWith 1 (patACGT16 true) textACGT20 0 144 = (List.range 80).map (fun (i : Nat) => ((i : Int) - 63, 1)) := by
+  refine ⟨?_, ?_⟩ <;> decide
 
 end ObiVerif.Apat
